@@ -121,7 +121,7 @@ class Model:
         raise ValueError(pos)
 
 
-OPS = ["assign-attr", "assign-tree", "assign-subdict", "same", "fresh", "files", "append", "rekey-root", "rekey-sub", "move-sub", "adopt-item", "adopt-extend", "attach-used", "rotate-root-file"]
+OPS = ["assign-attr", "assign-tree", "assign-subdict", "same", "fresh", "files", "append", "rekey-root", "rekey-sub", "move-sub", "adopt-item", "adopt-extend", "attach-used", "rotate-root-file", "failed-sub-load"]
 
 
 def histories(depth):
@@ -728,6 +728,15 @@ def run_history(ctx, job, pname, hist):
                 cfg.dumps(fmt)                      # the key files have been used
                 cfg._key_filename = keypath(tmp, "root2")
                 model.own["root"] = swapped.get("root2", "root2")       # (the key that file holds now)
+            elif op == "failed-sub-load":
+                # a document whose nested section is rejected half-way: nothing changes, the key files least of all
+                cfg.dumps(fmt)
+                for bad_tree in ({"sub": {"s": 5}}, {"sub": {"deep": {"s": ["x"]}, "s": p2}}, {"sub": {"nosuchfield": 1}}):
+                    try:
+                        cfg.load_tree(bad_tree)
+                        bad("bad-tree-accepted", "the tree %r was accepted" % (bad_tree,))
+                    except Exception:  # noqa
+                        pass
             elif op == "rotate-root-file":
                 # key rotation: the key file keeps its name, its content is replaced (here: traded with the spare file's)
                 cfg.dumps(fmt)
